@@ -2,6 +2,7 @@ import Fabio.Driver.Proto
 import Fabio.Model.C12Parse
 import Fabio.Model.C12Serve
 import Fabio.Model.C12Auth
+import Fabio.Model.C12Htpasswd
 namespace Fabio.Driver.C12
 open Lean Fabio.Driver Fabio.Model.C12 Fabio.Model.C12.Parse
 
@@ -228,24 +229,47 @@ def reqOf (inp : Json) (wire : Bool) : Except String Req := do
   return { method := if m == "" then "GET".toList else m.toList,
            headers := lines.map fun (k, v) => (canonKey k, if wire then trimOWS v else v) }
 
-def schemesOf (inp : Json) : Except String (List (List Char × List (List Char × List Char))) := do
+/-- the text of the htpasswd file of a case: given as such, or one line `user:password` per secret -/
+def fileTextOf (inp : Json) : List Char :=
+  let t := getStrD inp "htpasswd"
+  if t != "" then t.toList else renderSecrets (secretsOf ((inp.getObjVal? "secrets").toOption.getD Json.null))
+
+/-- the parameter `H` of the file model: what the library's hash parsers make of the hashed encodings of the file
+(accepted?) and whether the matcher accepts the password of this case - shipped by the harness, the hash functions
+are not modelled -/
+def hashedOracle (impl : Json) : List Char → Option (List Char → Bool) := fun enc =>
+  match (arrD impl "hashed").find? (fun j => getStrD j "enc" == String.ofList enc) with
+  | some j => if getBoolD j "ok" then some (fun _ => getBoolD j "match") else none
+  | none => none
+
+def schemesOf (inp : Json) : Except String (List (List Char × List Char)) := do
   let reg ← strList ((inp.getObjVal? "registered").toOption.getD Json.null)
-  let secrets := secretsOf ((inp.getObjVal? "secrets").toOption.getD Json.null)
-  return reg.map (fun n => (n, secrets))
+  return reg.map (fun n => (n, fileTextOf inp))
 
-def authModel (inp : Json) (wire : Bool := false) : Except String Bool := do
+def authModel (inp impl : Json) (wire : Bool := false) : Except String Bool := do
   let r ← reqOf inp wire
-  return authorizedReq (getStrD inp "scheme").toList (← schemesOf inp) r
+  return authorizedFile (hashedOracle impl) (getStrD inp "scheme").toList (← schemesOf inp) r
 
-/-- the specification's view of the credentials: the route names no scheme, or a registered one and the pair
-net/http itself reads out of the request (`impl.ba`) is a stored one -/
+/-- the specification's view of the credentials, written without the model's functions: the route names no scheme,
+or a registered one and some line of the htpasswd file - trimmed, split at its first colon - names the user
+net/http itself reads out of the request (`impl.ba`) and holds his password as written, behind `{PLAIN}`, or as a
+hash the library matches -/
 def credGoodLib (inp impl : Json) : Except String Bool := do
   let scheme := getStrD inp "scheme"
   let reg ← strList ((inp.getObjVal? "registered").toOption.getD Json.null)
-  let secrets := secretsOf ((inp.getObjVal? "secrets").toOption.getD Json.null)
   let ba := (impl.getObjVal? "ba").toOption.getD Json.null
-  return scheme == "" || (reg.contains scheme.toList && getBoolD ba "ok" &&
-    secrets.any (fun (u, p) => hexOfChars u == getStrD ba "u" && hexOfChars p == getStrD ba "p"))
+  let lines : List String := (String.ofList (fileTextOf inp)).splitOn "\n"
+  let hexS (x : String) : String := hexOfChars x.toList
+  let lineOK (l : String) : Bool :=
+    let t := l.trimAscii.toString
+    match t.splitOn ":" with
+    | u :: e1 :: es =>
+      let e := String.intercalate ":" (e1 :: es)
+      hexS u == getStrD ba "u" &&
+        (hexS e == getStrD ba "p" || hexS e == hexS "{PLAIN}" ++ getStrD ba "p" ||
+          (arrD impl "hashed").any (fun j => getStrD j "enc" == e && getBoolD j "ok" && getBoolD j "match"))
+    | _ => false
+  return scheme == "" || (reg.contains scheme.toList && getBoolD ba "ok" && lines.any lineOK)
 
 /-- class of the request shape -/
 def reqClass (r : Req) (spelled : Bool) : String :=
@@ -258,7 +282,7 @@ def reqClass (r : Req) (spelled : Bool) : String :=
 /-- c12.auth — `Target.Authorized` with the real `auth.LoadAuthSchemes` (htpasswd basic auth) on requests of every
 shape; the pair `Request.BasicAuth` reads is compared with the model's `basicAuthOf` as well. -/
 def authH : Handler := fun inp impl => do
-  let ok ← authModel inp
+  let ok ← authModel inp impl
   let r ← reqOf inp false
   let m := Json.mkObj [("ok", ok), ("ba", pairJson (basicAuthOf r))]
   let iok := (impl.getObjValAs? Bool "ok").toOption
@@ -273,9 +297,10 @@ def authH : Handler := fun inp impl => do
     | some false => true
     | none => false
   let spelled := getStrD ((inp.getObjVal? "req").toOption.getD Json.null) "auth" != ""
-  let tag := (if scheme == "" then "noscheme" else if !reg.contains scheme.toList then "unknown-scheme"
+  let tag := if (impl.getObjVal? "panic").toOption.isSome then "authorized-panics" else
+    (if scheme == "" then "noscheme" else if !reg.contains scheme.toList then "unknown-scheme"
     else match basicAuthOf r with | none => "known-nocred" | some _ => if ok then "known-good" else "known-bad")
-    ++ reqClass r spelled
+    ++ reqClass r spelled ++ (if getStrD inp "htpasswd" != "" then "+file" else "")
   return ({ model := m, agree := m == implCore, spec := spec, nontrivial := scheme != "", tag := tag } : Verdict).toJson
 
 /-- c12.basicauth — the Authorization line → (user, password): the model's `parseBasicAuth` against net/http's
@@ -358,7 +383,7 @@ def gateH : Handler := fun inp impl => do
   let lk : Nat → Option TargetM := fun _ => if noroute then none else some t
   let p : Proto := match proto with | "sni" => .sni | "dyn" => .dyn | "http" => .http | _ => .tcp
   let tcpPeer : TCPPeer := .addr ((splitHostPort peer.toList).bind (fun h => parseIP (stripZone h)))
-  let res := if isHTTP then serveReq goParsers schemes lk (fun _ => true) peer.toList r else serveTCP p lk (fun _ => true) tcpPeer
+  let res := if isHTTP then serveReqFile goParsers (hashedOracle impl) schemes lk (fun _ => true) peer.toList r else serveTCP p lk (fun _ => true) tcpPeer
   let outcome : String := match res with
     | .noRoute => if isHTTP then "404" else "closed"
     | .forbidden => if isHTTP then "403" else "closed"
@@ -403,7 +428,7 @@ def grpcH : Handler := fun inp impl => do
   let (rules, _) := processAccessRules goParsers allow.toList deny.toList
   let ip := (splitHostPort peer.toList).bind (fun h => parseIP (stripZone h))
   let denied := accessDeniedTCP rules (.addr ip)
-  let authOk ← authModel inp
+  let authOk ← authModel inp impl
   let (reply, contacted) := runGate { found := true, denied := denied, authorized := authOk } [.lookup, .access, .auth, .upstream] false
   let code : String := match reply with
     | .forbidden => "PermissionDenied"
